@@ -86,6 +86,11 @@ def install_clock():
 
     ctx.datetime = FakeModule
     misc.datetime = FakeModule
+    # whatever else asks the datetime module for the present - dateutil's parser completes '10:30' or
+    # 'March 5' from today's date - is looking at the same clock (this process only renders templates)
+    if real.datetime.__name__ != "FakeDateTime":
+        real.datetime = FakeDateTime
+        real.date = FakeDate
 
 
 def make_env(which: int, partials: dict):
@@ -193,7 +198,7 @@ def replay(ops, pool, partials):
     cache: dict = {}
     for i, op in enumerate(ops):
         if op["op"] == "tick":
-            Clock.now += 1000
+            Clock.now += 90_000        # a tick is 25 hours: the day changes
             continue
         if op["op"] == "edit":
             version[1] = 3 - version[1]
@@ -234,8 +239,8 @@ def check(tier: str) -> int:
     ALL = {"TSet": "{}", "DSet": "{}"}
     runs = [("exhaustive", dict(ALL, MaxOps="2", MaxFault="2" if thorough else "1", Kinds=seq, MaxSched="0"), None),
             # call - tick - call on the templates that show the clock; call - edit - call on those that load partials
-            ("clock", {"MaxOps": "3", "MaxFault": "0", "Kinds": '{"call", "tick"}', "MaxSched": "0", "TSet": "{6, 7}", "DSet": "{}" if thorough else "{1}"}, None),
-            ("loader", {"MaxOps": "3", "MaxFault": "1" if thorough else "0", "Kinds": '{"call", "edit"}', "MaxSched": "0", "TSet": "{4, 5, 9, 10}", "DSet": "{1}"}, None),
+            ("clock", {"MaxOps": "3", "MaxFault": "0", "Kinds": '{"call", "tick"}', "MaxSched": "0", "TSet": "{6, 7, 14}", "DSet": "{}" if thorough else "{1}"}, None),
+            ("loader", {"MaxOps": "3", "MaxFault": "1" if thorough else "0", "Kinds": '{"call", "edit"}', "MaxSched": "0", "TSet": "{4, 5, 9, 12}", "DSet": "{1}"}, None),
             ("pairs", dict(ALL, MaxOps="1", MaxFault="0", Kinds='{"pair"}', MaxSched="6" if thorough else "5"), None),
             ("random", dict(ALL, MaxOps="8" if thorough else "6", MaxFault="3", Kinds='{"call", "tick", "edit", "pair"}', MaxSched="4"),
              f"num={6000 if thorough else 1500}")]
